@@ -358,12 +358,18 @@ int main(int argc, char **argv)
         // ---- R1: stop at K, fresh module, load, continue ----
         // every (stop step, format) is judged on its own: a violation at one stop step must not hide the others
         for (int K = 0; K < L; K++) {
-          for (int bin = 0; bin <= 1; bin++) {
+          // bin 2: text state loaded into an instance that has already evaluated its first step (an engine restarted at step K
+          // that is told "run 0", then to load the Colvars state, then to run: the run repeats step K)
+          for (int bin = 0; bin <= 2; bin++) {
            auto one_case = [&]() {
+            bool const late_load = (bin == 2);
+            if (late_load) bin = 0;
+            struct Restore { int &b; bool l; ~Restore() { if (l) b = 2; } } restore_bin{bin, late_load};
             if (bin && c.resume_text.size()) return;   // (the binary format is positional by design: same order only)
+            if (late_load && K == 0) return;             // (nothing to load at the first step)
             r.count("evaluations");
             double rel = bin ? 1e-12 : 1e-9;
-            std::string det = base + ",\"stop_step\":" + std::to_string(K) + ",\"format\":\"" + (bin ? "binary" : "text") + "\"";
+            std::string det = base + ",\"stop_step\":" + std::to_string(K) + ",\"format\":\"" + (bin ? "binary" : "text") + "\"" + (late_load ? ",\"loaded\":\"after the instance evaluated step K once\"" : "");
             // second oracle: saving immediately after loading reproduces the loaded state
             {
               Driver d2(c, ss != 0);
@@ -383,7 +389,17 @@ int main(int argc, char **argv)
             }
             Driver d1(c, ss != 0);
             if (!d1.fresh(word[K], K, err, true)) { fprintf(stderr, "HARNESS-ERROR: %s rejected on restart\n", c.name); exit(3); }
-            if (bin) d1.px->queue_state_binary(st_bin[K]); else d1.px->queue_state_text(st_text[K]);
+            if (late_load) {
+              Obs o0l;
+              d1.px->colvars->set_initial_step(K);
+              if (!d1.step(word[K], K, o0l, err)) { r.violation(std::string("C03:resumed-run-error:") + c.name + ":state-loaded-after-a-first-evaluation", det + ",\"error\":\"" + jesc(err.substr(0, 300)) + "\"}"); return; }
+              r.count("transitions");
+              d1.px->end_run();
+              d1.px->queue_state_text(st_text[K]);
+              cvm::clear_error();
+              d1.px->colvars->setup_input();
+              if (cvm::get_error()) { cvm::clear_error(); r.violation(std::string("C03:load:error-loading-own-state:") + c.name + ":state-loaded-after-a-first-evaluation", det + ",\"error\":\"" + jesc(d1.px->errtxt.substr(0, 300)) + "\"}"); return; }
+            } else if (bin) d1.px->queue_state_binary(st_bin[K]); else d1.px->queue_state_text(st_text[K]);
             Obs o;
             for (int s = K; s < L; s++) {
               if (!d1.step(word[s], s, o, err)) {
@@ -402,14 +418,14 @@ int main(int argc, char **argv)
               if (which >= 0) {
                 const char *what = which == 0 ? "value" : (which == 1 ? "energy" : "force");
                 std::string when = (s == K) ? "at-the-repeated-step" : "after-the-stop";
-                r.violation(std::string("C03:resumed-run-differs:") + c.name + ":" + what + ":" + when,
+                r.violation(std::string("C03:resumed-run-differs:") + c.name + ":" + what + ":" + when + (late_load ? ":state-loaded-after-a-first-evaluation" : ""),
                             det + ",\"step\":" + std::to_string(s) + ",\"resumed\":" + num(o.v[which]) + ",\"uninterrupted\":" + num(o0[s].v[which]) + "}");
                 return;
               }
             }
             std::string df = c.resume_text.size() ? state_diff(sorted_blocks(final0), sorted_blocks(d1.px->state_text()), rel) : state_diff(final0, d1.px->state_text(), rel);
             if (df.size()) {
-              r.violation(std::string("C03:final-state-differs:") + c.name, det + ",\"difference\":\"" + jesc(df) + "\"}");
+              r.violation(std::string("C03:final-state-differs:") + c.name + (late_load ? ":state-loaded-after-a-first-evaluation" : ""), det + ",\"difference\":\"" + jesc(df) + "\"}");
             }
            };
            one_case();
